@@ -135,6 +135,9 @@ func RunProperty(prog *Program, prop, tier string, seed int, verifDir string, st
 			cnt[o.St]++
 			all = append(all, *o)
 		}
+		if r.Wide && len(cnt) == 0 {
+			continue
+		}
 		perRule[r.Name] = cnt
 		ruleDocs = append(ruleDocs, r.Name+": "+r.Doc)
 	}
@@ -270,6 +273,10 @@ func RunProperty(prog *Program, prop, tier string, seed int, verifDir string, st
 	var rs []string
 	for _, r := range rules {
 		c := perRule[r.Name]
+		// a wide rule that produced nothing for this property is not part of its check
+		if r.Wide && c["ok"]+c["violation"]+c["analysis-incomplete"]+c["info"] == 0 {
+			continue
+		}
 		rs = append(rs, fmt.Sprintf("%s(ok=%d viol=%d inc=%d info=%d)", r.Name, c["ok"], c["violation"], c["analysis-incomplete"], c["info"]))
 	}
 	fmt.Printf("lvcheck %s tier=%s: %d obligations, %d discharged, %d known, %d open [%s] %.1fs\n", prop, tier, total, nOK, nKnown, nViol, strings.Join(rs, " "), time.Since(start).Seconds())
